@@ -73,7 +73,12 @@ class BaseThread(threading.Thread):
 
     def start(self) -> None:
         self.on_thread_start()
-        threading.Thread.start(self)
+        try:
+            threading.Thread.start(self)
+        except Exception:
+            # The thread could not be created: release what on_thread_start() has set up.
+            self.on_thread_stop()
+            raise
 
 
 def load_module(module_name: str) -> ModuleType:
